@@ -27,6 +27,13 @@ CLAIMED = {
     "C09": ("4 C09", "The APH weight and the yaw error are executed with both yaw angles (and the ego yaw) as symbolic reals over the "
             "whole circle and both quaternion signs; the claims are linear real arithmetic with ite/floor, so z3 decides them "
             "for every angle pair, not a grid."),
+    "C15": ("4 C15", "set_thresholds is executed on every threshold shape within the bound (scalar / flat / nested, mixed item "
+            "types) with symbolic numeric entries: broadcast values, exact lengths and idempotence are z3 equalities over the "
+            "symbolic numbers, shapes are enumerated exhaustively by solver-checked forks; the configuration classes are "
+            "executed on a valid base per task under every single edit with symbolic numeric values."),
+    "C17": ("4 C17", "get_now_frame / get_interpolated_now_frame are executed with symbolic integer timestamps, query time and "
+            "tolerance (linear integer arithmetic, all orderings), and the real interpolation code with symbolic poses or "
+            "symbolic query time; z3 decides nearest-in-tolerance, the neighbour gating and segment/shortest-arc exactness."),
 }
 NA = {
     "C16": "dataset loading goes through the nuScenes devkit and file I/O; a symbolic stand-in for the devkit would be the "
